@@ -68,6 +68,11 @@ def gen_names(rng, n):
     names = base[:n]
     while len(names) < n:
         names.append(bytes(rng.choice(b"abcxyz019/._- ") for _ in range(rng.randint(1, 12))).strip() or b"q")
+    if rng.random() < 0.35:
+        # a deep path: a record of several hundred to several thousand bytes (PATH_MAX is 4096; relative names of nested
+        # directories get there) - well inside the reader's 256 KiB line buffer, beyond any small fixed buffer
+        L = rng.choice((250, 500, 900, 990, 1010, 1024, 1100, 2000, 4000, 9000))
+        names[rng.randrange(len(names))] = b"deep/" + b"/".join(bytes(rng.choice(b"abcdefgh") for _ in range(20)) for _ in range(L // 21)) + b".o"
     return list(dict.fromkeys(names))
 
 
@@ -391,6 +396,14 @@ def judge_tear(ctx, tid, ev, B, c, kind, first_app=None):
     ever = {}
     for nm, h, *_ in build_log_records(B):
         ever.setdefault(nm, set()).add(h)
+    # the record whose line the tear falls into, as it stands complete in the untorn file
+    torn_rec = None
+    if tail:
+        ls = B.rfind(b"\n", 0, c) + 1
+        le = B.find(b"\n", c)
+        if le > ls:
+            rr = build_log_records(B[ls:le + 1])
+            torn_rec = rr[0] if rr else None
     for k in range(1, min(len(files), len(dumps))):
         F = files[k]
         if F is None:
@@ -424,6 +437,10 @@ def judge_tear(ctx, tid, ev, B, c, kind, first_app=None):
                 # the merged line is the first appended record with a damaged start/end time: that
                 # record was genuinely completed in this session, so (hash, mtime) are true
                 ctx.count("merged_line_is_genuine_new_record")
+            elif torn_rec is not None and o == torn_rec[0] and got[o] == (torn_rec[1], torn_rec[2], torn_rec[3], torn_rec[4]):
+                # the digits glued on happen to be exactly the ones the tear cut off: the merged line *is* the record that was
+                # being written when the write was torn - true in every field (seen once in ~10^5 cuts)
+                ctx.count("merged_line_reconstitutes_the_torn_record")
             elif got[o][0] in ever.get(o, ()):
                 ctx.violation("C08/tear-append/merged-line-looks-valid",
                               "%s: after tear at %d + append, %r has (hash,mtime)=%r but complete records say %r" %
